@@ -17,7 +17,7 @@ class C12(Prop):
     id = "C12"
     title = "Buffered commands are served fairly: one per user per cycle, nobody starves"
     lean_modules = ["NV.C12.Props", "NV.C12.Witness", "NV.C12.Trace", "NV.C12.Fifo3", "NV.C12.Fifo5", "NV.C12.Neg", "NV.C12.Flag",
-                    "NV.C12.Lemmas4", "NV.C12.Live4", "NV.C12.Order1"]
+                    "NV.C12.Lemmas4", "NV.C12.Live4", "NV.C12.Order1", "NV.C12.Order6"]
     lean_modules_ = None
     theorems = [
         "NV.C12.flag_bits",
@@ -81,6 +81,19 @@ class C12(Prop):
         "NV.C12.cmdLoop_thrown_false",
         "NV.C12.judgeLive_events",
         "NV.C12.judgeEv_events_eq_order",
+        "NV.C12.model_satisfies_spec",
+        "NV.C12.judgeOrder_events",
+        "NV.C12.OB_cycle",
+        "NV.C12.OB_step",
+        "NV.C12.OB_run",
+        "NV.C12.puc_OL",
+        "NV.C12.cmdLoop_OL",
+        "NV.C12.processIO_OB",
+        "NV.C12.guc_ord",
+        "NV.C12.scan_ord",
+        "NV.C12.rank_dec",
+        "NV.C12.rank_grow",
+        "NV.C12.cplO_step",
         "NV.C12.model_satisfies_spec_noerr",
         "NV.C12.order_of_struct",
         "NV.C12.run_noerr",
@@ -116,17 +129,16 @@ class C12(Prop):
                   "get_user_command/process_user_command (rotating cursor, HAS_CMD_TURN/CMD_IN_BUF/SINGLE_CHAR, sparse connection "
                   "table, (dis)connects between and inside cycles incl. a connect and disconnects in one process_io, command() "
                   "efun, uncaught LPC errors that abort an iteration and restart the loop) for all tables, cursors, queue depths "
-                  "and scripts; trace level: the specification oracle accepts every model trace for the clauses twice / outside / "
-                  "crash / malformed / efun / fifo / starved / idleWait (all histories with plain bytes, all scripts) and for all "
-                  "clauses when no script throws (model_satisfies_spec_noerr); the model is tied to the source by regenerated "
+                  "and scripts; TOP THEOREM model_satisfies_spec: judgeEv (events sc cs) = [] - the specification oracle (all five "
+                  "clause oracles: twice / outside / crash / malformed, efun, fifo, starved / idleWait, overtaken) accepts the "
+                  "trace of the model for every history with plain bytes and every script oracle; the model is tied to the source by regenerated "
                   "expressions, flag bits and AST statement orders (bridging lemmas are obligations) and by stepping the REAL "
                   "backend() loop (guarded cycle hook; aborted iterations seen through the second poll) with loopback TCP clients "
                   "on the same histories; the Lean oracle judges every implementation trace")
     level_note = ("trusted: Lean kernel; extract.py / c12_extract.py; the correspondence harness (differential, only the generated "
                   "histories; poll events are reported to the driver in a fixed order: listening port, then users by slot); LPC "
-                  "code run by commands is an oracle script with fuel; clause `overtaken` (round robin across aborted "
-                  "iterations) is checked on every implementation trace but proved for the model only for scripts that never "
-                  "throw; sent bytes in the trace theorems are plain (no NUL/BS/DEL/CR/LF); input buffer size rules (C13), `!` "
+                  "code run by commands is an oracle script with fuel; sent bytes in the trace theorems are plain (no "
+                  "NUL/BS/DEL/CR/LF: such bytes edit or split lines); input buffer size rules (C13), `!` "
                   "escapes, ed, exec(), console user are outside the model")
     rule = ("cases = corpus + boundary list + seeded random histories: 1..12 users (sometimes 50..112) connecting (accept queue), "
             "closing, being kicked/dropped from inside commands, sparse slot layouts, several users quitting inside one command "
@@ -140,7 +152,6 @@ class C12(Prop):
                    "pending) is a loss of commands that wait for their turns, i.e. it also breaks the FIFO clause of this "
                    "property for such bursts",
                    "`!` shell escapes with a pending input_to, ed, snooping, console user (slot 0), telnet negotiation bytes, exec()",
-                   "clause `overtaken` for the model when scripts throw (needs the order of the cursor walk across restarts)",
                    "heart beats: an iteration aborted by an error skips call_heart_beat() (property C11)"]
 
     # ---- tie: scheduling expressions regenerated from the source text ------------------------------------
